@@ -4,18 +4,21 @@ use crate::engine::{Ctx, Run};
 use serde_json::Value;
 
 pub mod c01;
+pub mod c02;
 pub mod c03;
 pub mod c04;
 pub mod c05;
 pub mod c06;
 pub mod c07;
 pub mod c08;
+pub mod c09;
 pub mod c10;
 pub mod c11;
 pub mod c16;
 pub mod c18;
 pub mod common;
 pub mod selfcheck;
+pub mod strs;
 
 pub struct Prop {
     pub id: &'static str,
@@ -26,12 +29,14 @@ pub struct Prop {
 
 pub const PROPS: &[Prop] = &[
     Prop { id: "C01", run: c01::run, replay: c01::replay, leg: None },
+    Prop { id: "C02", run: c02::run, replay: c02::replay, leg: None },
     Prop { id: "C03", run: c03::run, replay: c03::replay, leg: Some(c03::leg) },
     Prop { id: "C04", run: c04::run, replay: c04::replay, leg: None },
     Prop { id: "C05", run: c05::run, replay: c05::replay, leg: None },
     Prop { id: "C06", run: c06::run, replay: c06::replay, leg: None },
     Prop { id: "C07", run: c07::run, replay: c07::replay, leg: None },
     Prop { id: "C08", run: c08::run, replay: c08::replay, leg: None },
+    Prop { id: "C09", run: c09::run, replay: c09::replay, leg: None },
     Prop { id: "C10", run: c10::run, replay: c10::replay, leg: None },
     Prop { id: "C11", run: c11::run, replay: c11::replay, leg: None },
     Prop { id: "C16", run: c16::run, replay: c16::replay, leg: None },
